@@ -820,6 +820,21 @@ def gen_fc_random(rng, i):
     return ("fr%d" % i, ["CFG %d %d %d %d" % (maxm, maxb, im, ib)] + th + ["SCHED " + " ".join(sched)])
 
 
+def gen_fc_three_party(rng, i):
+    """One below full; an inc that fills, a dec that frees, one or two waiters: random orders of their ~15 atomic steps,
+    then everything runs out (round robin).  The window in which a releaser decides on stale information whether
+    anybody needs waking lies in these orders."""
+    maxm, maxb = rng.choice([(5, 16), (2, 8), (3, 1)])
+    by_bytes = rng.random() < 0.6 and maxb > 1
+    im, ib = (1, maxb - 1) if by_bytes else (maxm - 1, 0)
+    delta = "1 0" if by_bytes else "0 1"
+    th = ["T W"] * rng.choice([1, 1, 2]) + ["T I " + delta, "T D " + delta]
+    rng.shuffle(th)
+    sched = [str(rng.randrange(0, len(th))) for _ in range(rng.randrange(10, 22))]
+    sched += [str(k) for _ in range(8) for k in range(len(th))]
+    return ("f3p%d" % i, ["CFG %d %d %d %d" % (maxm, maxb, im, ib)] + th + ["SCHED " + " ".join(sched)])
+
+
 def gen_fc_enum(length):
     """One waiter, one dec that frees capacity: every schedule of the given length over the two threads
     (covers every position of the dec's three steps relative to the waiter's check / snapshot / poll)."""
@@ -833,7 +848,8 @@ def gen_fc_enum(length):
 
 def eng_fc(ctx):
     rng = random.Random(ctx.seed + 19)
-    cases = gen_fc_enum(ctx.n(9, 12)) + [gen_fc_random(rng, i) for i in range(ctx.n(600, 20000))]
+    cases = gen_fc_enum(ctx.n(9, 12)) + [gen_fc_random(rng, i) for i in range(ctx.n(600, 20000))] + \
+        [gen_fc_three_party(rng, i) for i in range(ctx.n(1200, 30000))]
     # two waiters, one releasing dec: all schedules of a fixed multiset
     bad, a, b = fc_diff("C19-fcsched", cases)
     st = ctx.stats
